@@ -2,6 +2,7 @@ import Driver.Util
 import Driver.C20
 import Driver.V2
 import Driver.V2Match
+import Driver.Lex
 /-
 lcdriver: reads one record per line on stdin, `<stage>\t<id>\t<fields…>`,
 runs the model's executable definitions, prints `<id>\t<result>`.
@@ -26,6 +27,12 @@ def handle (st : St) (line : String) : St × String :=
     match st.corpora.lookup cid with
     | some c => (st, id ++ "\t" ++ V2Match.runMatch c toks crs diffs)
     | none => (st, id ++ "\tNOCORPUS")
+  | "lex" :: id :: lang :: hx :: _ => (st, id ++ "\t" ++ Lex.runLex lang.toNat! (unhex hx))
+  | "spec:lexspec" :: id :: lang :: hx :: _ => (st, id ++ "\t" ++ Lex.runLexSpec lang.toNat! (unhex hx))
+  | "spec:lexspec" :: id :: lang :: _ => (st, id ++ "\t" ++ Lex.runLexSpec lang.toNat! [])
+  | "lex" :: id :: lang :: _ => (st, id ++ "\t" ++ Lex.runLex lang.toNat! [])
+  | "chunk" :: id :: spec :: _ => (st, id ++ "\t" ++ Lex.runChunk spec)
+  | "chunk" :: id :: _ => (st, id ++ "\t" ++ Lex.runChunk "")
   | _ :: id :: _ => (st, id ++ "\tBADSTAGE")
   | _ => (st, "?\tBADLINE")
 
